@@ -72,3 +72,30 @@ Definition init_rstate (n : nat) : rstate := {| cache := repeat None n; execs :=
 Definition loads_ok (ps : list (Z * Z)) (num_modules : Z) : bool :=
   forallb (fun p => (0 <=? snd p) && (snd p <? num_modules) &&
                     forallb (fun q => Bool.eqb (fst p =? fst q) (snd p =? snd q)) ps) ps.
+
+(* ---- module bodies that may throw ----
+   An import event carries whether the body, if it runs now, throws before it returns.  A body that
+   throws stores nothing (STOREMODULE is not reached): the importer gets no value, and the next
+   import of the module runs the body again. *)
+Record tstate := { t_cache : list (option Z); t_runs : list Z (* every start of a body *); t_done : list Z (* bodies that returned *) }.
+
+Definition exec_import_t (s : tstate) (ev : nat * bool) : tstate * option Z :=
+  let '(i, throws) := ev in
+  match nth_error (t_cache s) i with
+  | None => (s, None)
+  | Some (Some v) => (s, Some v)
+  | Some None =>
+      if throws then ({| t_cache := t_cache s; t_runs := t_runs s ++ [Z.of_nat i]; t_done := t_done s |}, None)
+      else
+        let stored := 2 * Z.of_nat (List.length (t_done s)) + 1 in
+        ({| t_cache := set_nth_opt i stored (t_cache s); t_runs := t_runs s ++ [Z.of_nat i];
+            t_done := t_done s ++ [Z.of_nat i] |}, Some stored)
+  end.
+
+Fixpoint exec_imports_t (s : tstate) (evs : list (nat * bool)) : tstate * list (option Z) :=
+  match evs with
+  | [] => (s, [])
+  | e :: r => let '(s1, v) := exec_import_t s e in let '(s2, vs) := exec_imports_t s1 r in (s2, v :: vs)
+  end.
+
+Definition init_tstate (n : nat) : tstate := {| t_cache := repeat None n; t_runs := []; t_done := [] |}.
